@@ -482,6 +482,92 @@ Section Refine.
   Qed.
 End Refine.
 
+(* ---------------- the other direction: where the hand model answers None the generated populate loop raises ---------------- *)
+Section RefineErr.
+  Variable p : pystr.
+  Variable ms : sdict entry.
+  Variable ls : sdict obj.
+  Hypothesis SFp : slash_free p.
+  Hypothesis HPm : forall kv, In kv ms -> split_head (fst kv) = p.
+  Hypothesis HPl : forall kv, In kv ls -> split_head (fst kv) = p.
+  Hypothesis NDm : NoDup (map fst ms).
+  Variable G : sdict (sdict ref).
+  Hypothesis Gspec : forall cp, sdict_get cp G = nonempty (grp p (chain ms ls) cp).
+
+  Lemma group_in_G : forall q, q <> [] -> Forall slash_free q -> gvals ms ls q <> [] -> In (join q, gvals ms ls q) G.
+  Proof.
+    intros q Q SQ NE. apply sdict_get_some_in. rewrite Gspec, (grp_chain p ms ls SFp HPm HPl q Q SQ).
+    destruct (gvals ms ls q); [congruence | reflexivity].
+  Qed.
+
+  (* a path whose parent is not a container: its group has no heap cell (containers[path] raises KeyError) *)
+  Lemma missing_parent_group : parents_ok (map Sp ms) (map Sp ls) [p] = false ->
+    exists s vals, In (s, vals) G /\ sdict_get s (H0 ms) = None.
+  Proof.
+    intro POK. unfold parents_ok in POK. apply forallb_false in POK. destruct POK as [q [Hq F]].
+    apply orb_false_iff in F. destruct F as [F1 F2].
+    assert (IN : exists it, In it (chain ms ls) /\ split (fst it) = q).
+    { rewrite !map_map in Hq. cbn [Sp fst] in Hq. rewrite <- (map_map fst split), <- (map_map fst split), <- map_app, <- chain_keys in Hq.
+      apply in_map_iff in Hq. destruct Hq as [s [E Hs]]. apply in_map_iff in Hs. destruct Hs as [it [E2 Hit]]. subst s. eauto. }
+    destruct IN as [it [Hit E]].
+    assert (NS : fst it <> p).
+    { intro K. rewrite K, (split_slash_free p SFp) in E. subst q. rewrite path_eqb_refl in F1. discriminate. }
+    destruct (pk_shape p SFp (fst it) (chain_head p ms ls HPm HPl it Hit) NS) as [q0 [t [Q [SQ [E0 [PK _]]]]]].
+    assert (NE : grp p (chain ms ls) (join q0) <> []).
+    { intro K. assert (X : In (t, snd it) (grp p (chain ms ls) (join q0))); [|rewrite K in X; exact X].
+      unfold grp. apply in_flat_map. exists it. split; [exact Hit|]. rewrite PK, str_eqb_refl. left. reflexivity. }
+    exists (join q0), (grp p (chain ms ls) (join q0)). split.
+    - apply sdict_get_some_in. rewrite Gspec. destruct (grp p (chain ms ls) (join q0)); [congruence | reflexivity].
+    - apply sdict_get_none. intro K. unfold H0 in K. rewrite map_map in K. cbn [fst] in K.
+      apply in_map_iff in K. destruct K as [[s e] [Es Hs]]. cbn [fst] in Es.
+      assert (X : path_memb (removelast q) (map fst (map Sp ms)) = true); [|congruence].
+      unfold path_memb. apply existsb_exists. exists q0. split.
+      + apply in_map_iff. exists (q0, e). split; [reflexivity|]. apply in_map_iff. exists (s, e). split; [|exact Hs].
+        unfold Sp. cbn [fst snd]. rewrite Es, (split_join q0 Q SQ). reflexivity.
+      + rewrite <- E, E0, removelast_last. apply path_eqb_refl.
+  Qed.
+
+  Hypothesis POK : parents_ok (map Sp ms) (map Sp ls) [p] = true.
+
+  Lemma depth_bound : forall r e, In ([p] ++ r, e) (map Sp ms) -> (length r < length (map Sp ms))%nat.
+  Proof.
+    intros r e H.
+    assert (A : forall k, (k <= length r)%nat -> In ([p] ++ firstn k r) (map fst (map Sp ms))).
+    { apply ancestors_closed.
+      - intros q Hq. apply (closure p ms ls POK). apply in_or_app. left. exact Hq.
+      - apply (in_map fst) in H. exact H. }
+    pose proof (chain_length _ [p] r (M'_nodup ms NDm) A) as L. rewrite map_length in L. exact L.
+  Qed.
+
+  (* a failed build means that the population of some container of the manifest raises *)
+  Lemma build_none_group : forall f r e, In ([p] ++ r, e) (map Sp ms) -> (f + length r = S (length (map Sp ms)))%nat ->
+    build f (map Sp ms) (map Sp ls) ([p] ++ r) e = None ->
+    exists s vals c, In (s, vals) G /\ sdict_get s (H0 ms) = Some c /\ populate_container_gen s c vals = None.
+  Proof.
+    induction f as [|f IH]; intros r e HQ Hf B.
+    { exfalso. pose proof (depth_bound r e HQ) as L. unfold path, token, pystr in *. lia. }
+    destruct (M'_shape p ms _ e HPm HQ) as [_ [_ SQ]]. assert (Q : [p] ++ r <> []) by discriminate.
+    cbn [build] in B.
+    match type of B with context [mapM ?F ?l] => destruct (mapM F l) as [vc|] eqn:M end.
+    - (* the children were built; populate raised *)
+      assert (TK : map fst (vc ++ children (map Sp ls) ([p] ++ r)) = map fst (gvals ms ls ([p] ++ r)))
+        by (rewrite gvals_tokens, map_app, (mapM_fst _ _ _ M); reflexivity).
+      destruct (vc ++ children (map Sp ls) ([p] ++ r)) as [|v1 vr] eqn:EV; [discriminate|].
+      rewrite populate_is_spec in B. destruct (populate_spec e (v1 :: vr)) as [c|] eqn:PS; [discriminate|].
+      pose proof (populate_spec_none_tokens e _ (gvals ms ls ([p] ++ r)) TK PS) as PG.
+      assert (NE : gvals ms ls ([p] ++ r) <> []) by (intro K; rewrite K in TK; discriminate).
+      exists (join ([p] ++ r)), (gvals ms ls ([p] ++ r)), (init_cont e). split; [exact (group_in_G _ Q SQ NE)|]. split.
+      + exact (H0_get ms NDm _ e HQ).
+      + rewrite populate_container_gen_correct. exact PG.
+    - (* some child was not built *)
+      apply mapM_none in M. destruct M as [[t e'] [Hin Fx]]. cbn [fst snd] in Fx.
+      match type of Fx with context [build ?a ?b ?c ?d ?e1] => destruct (build a b c d e1) as [o'|] eqn:B' end;
+        [cbn [option_map] in Fx; discriminate|].
+      apply in_children in Hin. rewrite <- app_assoc in Hin, B'.
+      apply (IH (r ++ [t]) e' Hin); [|exact B']. rewrite app_length. cbn [length]. unfold path, token, pystr in *. lia.
+  Qed.
+End RefineErr.
+
 Lemma gen_filter : forall {A} p (l : sdict A), NoDup (map fst l) ->
   sdict_of_list (flat_map (fun it : pystr * A => if str_eqb (split_head (fst it)) p then [(fst it, snd it)] else [])
                           (sdict_items l)) = filter (hpb p) l.
@@ -505,14 +591,14 @@ Proof.
     rewrite map_app, <- app_assoc. exact N.
 Qed.
 
-(* The generated inflate refines the hand model.  m and lm are Python dicts (distinct keys); under the prefix no path
-   is both a container and a leaf (the hand model does not describe that case). *)
-Theorem inflate_gen_refines : forall m lm prefix o,
+(* The generated inflate IS the hand model on Python dicts.  m and lm have distinct keys; under the prefix no path is
+   both a container and a leaf (the hand model does not describe that case).  None = an exception, on both sides. *)
+Theorem inflate_gen_is_model : forall m lm prefix,
   NoDup (map fst m) -> NoDup (map fst lm) ->
   (forall k, In k (map fst m) -> In k (map fst lm) -> split_head k <> encode prefix) ->
-  inflate_s m lm prefix = Some o -> inflate_run_gen m lm prefix = Some o.
+  inflate_run_gen m lm prefix = inflate_s m lm prefix.
 Proof.
-  intros m lm prefix o Nm Nl DJ H. rewrite inflate_s_unfold in H.
+  intros m lm prefix Nm Nl DJ. rewrite inflate_s_unfold.
   unfold inflate_run_gen, inflate_gen. cbv zeta. rewrite !encode_gen_is_encode.
   rewrite (gen_filter (encode prefix) m Nm), (gen_filter (encode prefix) lm Nl).
   set (p := encode prefix) in *. set (ms := filter (hpb p) m) in *. set (ls := filter (hpb p) lm) in *.
@@ -527,11 +613,11 @@ Proof.
   { intros k H1 H2. apply in_map_iff in H1. destruct H1 as [kv1 [E1 H1]]. apply in_map_iff in H2. destruct H2 as [kv2 [E2 H2]].
     pose proof (HPm kv1 H1) as HS. rewrite E1 in HS. apply filter_In in H1. apply filter_In in H2.
     apply (DJ k); [rewrite <- E1; apply in_map; tauto | rewrite <- E2; apply in_map; tauto | exact HS]. }
-  rewrite !(assoc_path_split p) in H by exact SFp. unfold sdict_mem.
-  destruct (sdict_get p ls) as [o'|] eqn:EL.
-  { inversion H; subst o'. reflexivity. }
-  destruct (sdict_get p ms) as [e0|] eqn:EM; [|discriminate]. cbn [negb].
-  destruct (parents_ok (map Sp ms) (map Sp ls) [p]) eqn:POK; [|discriminate].
+  rewrite !(assoc_path_split p) by exact SFp. unfold sdict_mem.
+  (* `if prefix in flattened: return flattened[prefix]` *)
+  destruct (sdict_get p ls) as [o'|] eqn:EL; [reflexivity|].
+  (* `if prefix not in manifest: raise` *)
+  destruct (sdict_get p ms) as [e0|] eqn:EM; [|reflexivity]. cbn [negb].
   assert (ROOT : In ([p], e0) (map Sp ms)).
   { apply sdict_get_some_in in EM. apply in_map_iff. exists (p, e0). split; [|exact EM].
     unfold Sp. cbn [fst snd]. rewrite (split_slash_free p SFp). reflexivity. }
@@ -557,11 +643,28 @@ Proof.
     destruct (pk_shape p SFp (fst it) HS NS) as [q [t [_ [_ [_ [PK' E]]]]]]. rewrite PK' in PK. inversion PK; subst. exact E. }
   rewrite EG. cbn [obind].
   (* loop 3: populating the containers in place *)
-  match goal with |- context [py_for G (H0 ms) ?b] =>
-    destruct (pop_for populate_container_gen b G (H0 ms)) as [H' [EH [LH SH]]] end.
-  { intros st it _. unfold pop_step. destruct (sdict_get (fst it) st) as [c|] eqn:E; cbn [obind]; [|reflexivity].
+  match goal with |- context [py_for G (H0 ms) ?b] => set (body3 := b) end.
+  assert (HB3 : forall st it, In it G -> body3 st it = pop_step populate_container_gen st it).
+  { intros st it _. unfold body3, pop_step. destruct (sdict_get (fst it) st) as [c|] eqn:E; cbn [obind]; [|reflexivity].
     rewrite cont_isinstance_any. cbn [negb]. reflexivity. }
-  { exact NG. }
+  assert (FAIL : (exists s vals, In (s, vals) G /\
+                    forall c, sdict_get s (H0 ms) = Some c -> populate_container_gen s c vals = None) ->
+                 hr <- (v_containers <- py_for G (H0 ms) body3 ;; t7 <- heap_ref v_containers p ;; Some (v_containers, t7)) ;;
+                 resolve (S (length (fst hr))) (fst hr) (snd hr) = None).
+  { intro W. pose proof (pop_for_fail populate_container_gen body3 G (H0 ms) HB3 NG W) as E.
+    unfold heap, sdict in E |- *. rewrite E. reflexivity. }
+  destruct (parents_ok (map Sp ms) (map Sp ls) [p]) eqn:POK.
+  2:{ (* a parent path that is not a container: KeyError *)
+      apply FAIL. destruct (missing_parent_group p ms ls SFp HPm HPl G SG POK) as [s [vals [Hin HN]]].
+      exists s, vals. split; [exact Hin|]. intros c Hc. congruence. }
+  destruct (build (S (length (map Sp ms))) (map Sp ms) (map Sp ls) [p] e0) as [o|] eqn:B.
+  2:{ (* the population of some container raises *)
+      apply FAIL.
+      destruct (build_none_group p ms ls SFp HPm HPl NDm G SG POK (S (length (map Sp ms))) [] e0 ROOT ltac:(cbn [length]; lia) B)
+        as [s [vals [c [Hin [Hc HN]]]]].
+      exists s, vals. split; [exact Hin|]. intros c' Hc'. congruence. }
+  clear FAIL.
+  destruct (pop_for populate_container_gen body3 G (H0 ms) HB3 NG) as [H' [EH [LH SH]]].
   { intros s vals Hin. pose proof (sdict_get_in s vals G NG Hin) as E. rewrite SG in E.
     assert (E2 : grp p (chain ms ls) s = vals /\ grp p (chain ms ls) s <> []).
     { destruct (grp p (chain ms ls) s); [discriminate|]. cbn [nonempty] in E. inversion E. split; [reflexivity | discriminate]. }
@@ -577,6 +680,12 @@ Proof.
   { unfold sdict_mem. cbn [resolve] in R. destruct (sdict_get p H'); [reflexivity | discriminate]. }
   unfold heap_ref. rewrite MEM. cbn [obind fst snd]. exact R.
 Qed.
+
+Theorem inflate_gen_refines : forall m lm prefix o,
+  NoDup (map fst m) -> NoDup (map fst lm) ->
+  (forall k, In k (map fst m) -> In k (map fst lm) -> split_head k <> encode prefix) ->
+  inflate_s m lm prefix = Some o -> inflate_run_gen m lm prefix = Some o.
+Proof. intros m lm prefix o Nm Nl DJ H. rewrite (inflate_gen_is_model m lm prefix Nm Nl DJ). exact H. Qed.
 
 (* ================================================================== the round trip over the generated functions *)
 Lemma NoDup_app_disjoint : forall {A} (a b : list A) x, NoDup (a ++ b) -> In x a -> In x b -> False.
